@@ -96,6 +96,11 @@ RULE = (
     "later steps (flag toggles on either side, witness values pushed through the link, the link asked for again); "
     "quick: every via x flags with one incompatible and one compatible hand-picked pair + presence block + 450 random "
     "(~650); thorough: the full cross product with 12+11 pairs and 4 switch mechanisms + 7000 random. "
+    "(2b) chain cases on REAL nodes: the channel the link is made to HAS value receivers (1-3 links below it; plain "
+    "function nodes linked by hand or really nested macros Outer -> Inner -> leaf), hints along the chain widening "
+    "(ladders), narrowing or unrelated (behind lax members) or missing, the sender's hint on or between the rungs, "
+    "flags of every member set before or after the chain was forged, the sender forwarding to 0-2 outputs of its "
+    "own, 7 vias, witness values pushed all the way down; quick ~280, thorough 5000. "
     "(3) exotic cases, oracle only (no model): ~115 named hints beyond the modelled grammar (TypeVar bound/constrained, "
     "NewType, Protocol, TypedDict, ForwardRef and plain strings, Self/Never/LiteralString/Final/ClassVar, user Generic "
     "classes, collections.abc / collections generics, Callable with hinted parameters / Concatenate / ParamSpec, "
@@ -990,6 +995,7 @@ def corpus():
     yield CH(F, [[None, 1], [I, 1]], "io", build="macro", vals=[["f", 1]])  # hint-less macro argument: nothing compared
     yield CH(F, [[I, 1], [None, 1], [IF, 1]], "ion", vals=[["f", 1]])
     yield CH(S, [[I, 1], [S, 0]], "ic", late=[[2, 1]], vals=[["s", "a"]])
+    yield CH(F, [[I, 1], [IF, 1]], "oc", sc=[[I, 0]], vals=[["f", 1]])  # the SENDER forwards to a narrower, lax output
     X = lambda a, b: {"kind": "exotic", "h": a, "o": b, "mode": "corpus"}  # noqa: E731
     yield X("type[list[int]]", "type")
     yield X("Annotated[Any]", "Any")
@@ -2135,7 +2141,10 @@ def gen_chain_cases(rng, tier):
         sc = []
         if CHAIN_VIAS[via] in ("oc", "ic") and h is not None and rng.random() < 0.3:
             for _ in range(rng.choice([1, 1, 2])):
-                sc.append([generalise(rng, sc[-1][0] if sc else h, False), 0 if rng.random() < 0.2 else 1])
+                if rng.random() < 0.45:  # a narrower / unrelated hint behind a member that has opted out
+                    sc.append([rng.choice([rcf[0][0], rng.choice(E1)]), 0])
+                else:
+                    sc.append([generalise(rng, sc[-1][0] if sc else h, False), 0 if rng.random() < 0.2 else 1])
         late = [[rng.randrange(1, len(rcf) + 1), rng.choice([0, 1])] for _ in range(rng.choice([0, 0, 1, 2]))]
         cand = (_members(h, 3) if h else []) + _members(rcf[0][0], 2) + _members(rcf[-1][0] or ["c", "int"], 2)
         yield {"kind": "chain", "h": h, "ss": 0 if rng.random() < 0.3 else 1, "rc": rcf, "sc": sc, "via": via,
